@@ -38,7 +38,7 @@ pub fn main_threads(dispatch: Dispatch, args: &[String]) {
         }
     }
     // deep-nesting workloads ask for a larger native stack (VFRT_STACK_MB): the stack is the harness's, not the parser's
-    let stack_bytes: usize = std::env::var("VFRT_STACK_MB").ok().and_then(|s| s.parse::<usize>().ok()).map(|mb| mb << 20).unwrap_or(16 << 20);
+    let stack_bytes: usize = std::env::var("VFRT_STACK_MB").ok().and_then(|s| s.parse::<usize>().ok()).map(|mb| mb << 20).unwrap_or(128 << 20);
     let barrier = Arc::new(Barrier::new(nthreads));
     let base = Instant::now();
     let mut handles = Vec::new();
